@@ -17,7 +17,7 @@ ID = "C07"
 LEVEL = "translation_validation"
 PROPS_FILE = "C07.v"
 RUN_MODULE = "RunC07"
-TRANSLATOR_UNITS = []
+TRANSLATOR_UNITS = ["rtlil"]
 SHARD = 20
 RULE = ("designs from a seeded generator: module trees of depth <= 3 (some modules empty), 3-10 signals whose names are drawn "
         "from a small pool so that they clash with each other, with port names and with submodule names (private '' names and, "
